@@ -668,8 +668,11 @@ class PeerStateMachine():
                 self.association.close()
             except DiameterAssociationError:
                 #: The transport never came up: there is nothing to release,
-                #: and the state machine still has to end up Closed.
-                pass
+                #: and the state machine still has to end up Closed. An
+                #: application thread may be waiting for messages already:
+                #: it is told that none will come.
+                self.association._stop_threads = True
+                self.association.postprocess_recv_messages_ready.set()
 
         if next_state in self.states:
             if self.current_state.name != next_state:
